@@ -15,8 +15,11 @@ from fractions import Fraction
 import numpy as np
 from .. import common
 from ..common import enc, ask
+from ..translator import py2lean
 
 LEVEL = "proof"
+TRUSTED = [py2lean.trusted_note("imager")]
+PROP_FILES = ["PersimVerif/Props/C12.lean"] + py2lean.prop_files("imager")
 RULE = ("histories generated from one PRNG: constructor (defaults / explicit ranges) followed by 0-12 operations drawn from "
         "{birth_range=, pers_range=, pixel_size=, fit(single|collection, skew T/F)}; value modes decimal (0.1,0.2,0.3,1/3,0.7 ... "
         "and ranges n*ps or two-decimal), decimal at large offsets (|b0| from 1e3 to 1e6 with the same pixel sizes), dyadic (exact "
@@ -664,7 +667,13 @@ def stress_cases(ctx):
     return out
 
 
+def pre_build(ctx):
+    """source translator (DESIGN.md 3.2): regenerate Generated/SrcImager.lean from PERSIM_ROOT's source"""
+    py2lean.pre_build(ctx, ("imager",))
+
+
 def run(ctx):
+    py2lean.report_broken(ctx, PROP_FILES)
     common.import_persim()
     ctx.extra["core_theorems"] = CORE_THEOREMS
     ctx.extra["anchors_digest"] = common.source_digest(
@@ -765,3 +774,4 @@ MANIFEST = {
             "only by the invariant evaluated on the code's own state.",
     "technique": "Lean 4 invariant proof over operation histories + differential correspondence with the real class + float-stress tests",
 }
+MANIFEST["note"] += " " + py2lean.manifest_note("imager")
